@@ -213,7 +213,7 @@ func runC09(c *core.Ctx) core.Meta {
 						found = true
 						cc := core.CallOf(in)
 						rp, ap := prov.Of(cc.Value), prov.Of(cc.Args[0])
-						ok := regexp.MustCompile(`^recv\.cuPool\.GetCU\(.*\.cuID\)$`).MatchString(rp) && strings.HasSuffix(ap, ".wg")
+						ok := core.ProvMatch(regexp.MustCompile(`^recv\.cuPool\.GetCU\(.*\.cuID\)$`), rp) && strings.HasSuffix(ap, ".wg")
 						st1.Ob(ok)
 						st1.Sample("%s.FreeResources: %s.FreeResourcesForWG(%s)", tn, rp, ap)
 						if !ok {
@@ -272,7 +272,7 @@ func runC09(c *core.Ctx) core.Meta {
 			sv := s.Instr.(ssa.Value)
 			msg := prov.Of(core.CallOf(s.Instr).Args[0])
 			okMsg := strings.Contains(msg, ".WithDst(&recv.currWG.cu)") && strings.Contains(msg, ".WithWG(&recv.currWG.wg)") &&
-				regexp.MustCompile(`\.AddWf\(&recv\.currWG\.locations\[`).MatchString(msg)
+				core.ProvMatch(regexp.MustCompile(`\.AddWf\(&recv\.currWG\.locations\[`), msg)
 			st2.Ob(okMsg)
 			st2.Sample("%s: dispatchingPort.Send(%s)", core.FuncName(fn), short(msg))
 			if !okMsg {
@@ -333,7 +333,7 @@ func runC09(c *core.Ctx) core.Meta {
 			st3.Instances++
 			c.MarkAnalysed(fn)
 			key := prov.Of(args[1])
-			okKey := regexp.MustCompile(`^recv\.dispatchingPort\.PeekIncoming\(\)\.RspTo\[`).MatchString(key)
+			okKey := core.ProvMatch(regexp.MustCompile(`^recv\.dispatchingPort\.PeekIncoming\(\)\.RspTo\[`), key)
 			st3.Ob(okKey)
 			if !okKey {
 				c.ReportAt("R09.3", fn, n.Instr.Pos(), "delete:key", "the in-flight entry deleted is keyed by "+short(key)+", not by an ID of the completion message")
@@ -705,7 +705,7 @@ func runC09(c *core.Ctx) core.Meta {
 			for _, in := range b.Instrs {
 				if s, ok := in.(*ssa.Store); ok {
 					a := prov.Of(s.Addr)
-					if regexp.MustCompile(`^&recv\.wfPoolFreeCount\[.*\.SIMDID\]$`).MatchString(a) && strings.HasSuffix(prov.Of(s.Val), sp.want) {
+					if core.ProvMatch(regexp.MustCompile(`^&recv\.wfPoolFreeCount\[.*\.SIMDID\]$`), a) && strings.HasSuffix(prov.Of(s.Val), sp.want) {
 						cnt++
 					}
 				}
@@ -740,9 +740,10 @@ func runC09(c *core.Ctx) core.Meta {
 				pv := norm(prov.Of(s.Val))
 				// shape: ((X*a)*b) or (X*a): product of constants
 				prod := int64(1)
-				for _, m := range regexp.MustCompile(`\*(\d+)\)`).FindAllStringSubmatch(pv, -1) {
+				// constant factors on either side of a product
+				for _, m := range regexp.MustCompile(`\*(\d+)\)|\((\d+)\*`).FindAllStringSubmatch(pv, -1) {
 					var k int64
-					fmt.Sscan(m[1], &k)
+					fmt.Sscan(m[1]+m[2], &k)
 					prod *= k
 				}
 				offsets[f] = fmt.Sprint(prod)
@@ -780,7 +781,7 @@ func runC09(c *core.Ctx) core.Meta {
 				u := norm(prov.Of(cc.Args[1]))
 				field := map[string]string{"SGPROffset": "WFSgprCount", "VGPROffset": "WIVgprCount", "LDSOffset": "GroupSegmentByteSize"}[m[1]]
 				g2 := map[string]string{"SGPROffset": gran["sregGranularity"], "VGPROffset": gran["vregGranularity"], "LDSOffset": gran["ldsGranularity"]}[m[1]]
-				okU := regexp.MustCompile(`^recv\.unitsOccupy\(.*\.CodeObject\.` + field + `,` + g2 + `\)$`).MatchString(u)
+				okU := core.ProvMatch(regexp.MustCompile(`^recv\.unitsOccupy\(.*\.CodeObject\.` + field + `,` + g2 + `\)$`), u)
 				if m[1] == "LDSOffset" {
 					okU = ldsDemandOK(c, prov, u, g2)
 				}
@@ -809,7 +810,7 @@ func runC09(c *core.Ctx) core.Meta {
 					idx = 1
 				}
 				u := prov.Of(cc.Args[idx])
-				ok := regexp.MustCompile(`^recv\.unitsOccupy\(.*\.CodeObject\.` + spec[0] + `,recv\.` + spec[1] + `\)$`).MatchString(u)
+				ok := core.ProvMatch(regexp.MustCompile(`^recv\.unitsOccupy\(.*\.CodeObject\.` + spec[0] + `,recv\.` + spec[1] + `\)$`), u)
 				if f == "withinLDSLimitation" {
 					ok = ldsDemandOK(c, prov, u, "recv."+spec[1])
 				}
@@ -866,7 +867,7 @@ func ldsDemandOK(c *core.Ctx, prov *core.Prov, u, gran string) bool {
 		return false
 	}
 	d := m[1]
-	if regexp.MustCompile(`^[^(){}|]*\.Packet\.GroupSegmentSize$`).MatchString(d) {
+	if core.ProvMatch(regexp.MustCompile(`^[^(){}|]*\.Packet\.GroupSegmentSize$`), d) {
 		return true
 	}
 	h := regexp.MustCompile(`^resource\.(\w+)\([^(){}|]*\)$`).FindStringSubmatch(d)
@@ -888,7 +889,7 @@ func ldsDemandOK(c *core.Ctx, prov *core.Prov, u, gran string) bool {
 		for _, in := range b.Instrs {
 			if r, ok := in.(*ssa.Return); ok && len(r.Results) == 1 {
 				pv := lp.Of(core.StripConv(r.Results[0]))
-				if strings.Contains(pv, ".Packet.GroupSegmentSize") && !regexp.MustCompile(`[-+*/]`).MatchString(strings.ReplaceAll(pv, ".Packet.GroupSegmentSize", "")) || strings.HasPrefix(pv, "max(") {
+				if strings.Contains(pv, ".Packet.GroupSegmentSize") && !core.ProvMatch(regexp.MustCompile(`[-+*/]`), strings.ReplaceAll(pv, ".Packet.GroupSegmentSize", "")) || strings.HasPrefix(pv, "max(") {
 					okRet = true
 				}
 				if strings.HasPrefix(pv, "max(") {
